@@ -396,6 +396,54 @@ def h11_late_registration(S):
         S.check("foreign-message-stays-available", out["foreign"] == ["waiting"], info=str(out["foreign"]))
 
 
+def h11_rabbit_same_id(S):
+    """RabbitMQ, a queue shared by two services whose jobs happen to carry the same id (ids are scoped per topic): while worker A
+    holds its own job, the other service's message with that id passes by - A settles its own delivery, the other one stays available."""
+    import repid.data._parameters as P
+    from repid import Job, Router, Worker
+    from repid.converter import BasicConverter
+    from repid.data._key import RoutingKey
+
+    own_fails = S.flag("own_job_fails")
+    ran = []
+    out = {}
+
+    async def main(loop):
+        w = World(backend="rabbit")
+        await w.open(queues=("shared",), record=False)
+        ra = Router()
+
+        @ra.actor(name="send_email", queue="shared", converter=BasicConverter)
+        async def send_email():
+            ran.append("email")
+            await asyncio.sleep(Fraction(1, 2))
+            if own_fails:
+                raise ValueError("x")
+
+        await Job("send_email", queue="shared", id_="user42", _connection=w.conn).enqueue()
+        wa = Worker(routers=[ra], handle_signals=[], _connection=w.conn, graceful_shutdown_time=1.0, tasks_limit=3, messages_limit=2)
+        task = asyncio.create_task(wa.run())
+        await asyncio.sleep(Fraction(1, 10))
+        # the other service's job with the same id arrives while A's own one is running (A keeps consuming: it is below its limits)
+        await w.broker.enqueue(RoutingKey(topic="send_sms", queue="shared", id_="user42"), "x", P.Parameters(timestamp=P.datetime.now()))
+        await asyncio.sleep(1)
+        await Job("send_email", queue="shared", id_="another", _connection=w.conn).enqueue()     # lets A reach its limit and return
+        await asyncio.wait_for(task, timeout=5)
+        await asyncio.sleep(Fraction(1, 2))
+        out["ready"] = {qn: [(m.props.headers["topic"], m.props.message_id) for m in q.ready] for qn, q in w.srv.queues.items() if q.ready}
+        out["unacked"] = [(m.props.headers["topic"], m.props.message_id) for ch in w.srv.channels for (_, m, _) in ch.unacked.values()]
+
+    run_async(main)
+    S.cover("same-id-neighbour")
+    S.check("own-job-runs", ran == ["email", "email"], info=str(ran))
+    sms_places = [qn for qn, ms in out["ready"].items() if ("send_sms", "user42") in ms]
+    S.check("foreign-message-stays-available", sms_places == ["shared"] and ("send_sms", "user42") not in out["unacked"],
+            info=f"the other service's message is in {sms_places}, unacknowledged deliveries: {out['unacked']}, queues: {out['ready']}")
+    email_places = [qn for qn, ms in out["ready"].items() if ("send_email", "user42") in ms]
+    S.check("own-message-is-settled", email_places == (["shared:dead"] if own_fails else []) and ("send_email", "user42") not in out["unacked"],
+            info=f"own message in {email_places}, unacknowledged: {out['unacked']}")
+
+
 def h11_redis_window(S):
     """Redis: foreign messages filling one or more fetch windows in front of an own job do not hide it."""
     from repid import Job, Router, Worker
@@ -497,6 +545,10 @@ HARNESSES = [
     Harness(name="H11-late-registration", scenario=h11_late_registration,
             bounds={"worker": "built from a router, then a registration of the same name through include_router or @worker.actor, on the same or another queue"},
             functions=["worker.py:Worker.run", "router.py:Router.include_router", "router.py:Router.actor"], covers=["late-registration"]),
+    Harness(name="H11-rabbit-same-id", scenario=h11_rabbit_same_id,
+            bounds={"shared RabbitMQ queue": "worker A holds its own job (0.5 s, succeeds or fails) while another service's message with the same id is delivered to it"},
+            functions=["connections/rabbitmq/consumer.py:_RabbitConsumer.on_new_message", "connections/rabbitmq/message_broker.py:RabbitMessageBroker.ack"],
+            covers=["same-id-neighbour"], stubs=["fake AMQP server"]),
     Harness(name="H11-rabbit-paused-neighbour", scenario=h11_rabbit_paused,
             bounds={"workers": "A (messages_limit 1, reached with a job that runs 3 s: its consumer is paused but registered) and B on one shared RabbitMQ queue",
                     "foreign messages": "1..3, published while A waits for its job", "server": "basic.qos applied to the channel at once, or per consumer as RabbitMQ does for global=false"},
